@@ -137,12 +137,35 @@ func genC04(e *emitter, tier string) {
 	}
 	// larger matrices (BLAS-style kernels block at 64 and switch strategy with size); small integers keep float32 exact
 	for _, d := range [][3]int{{66, 65, 33}, {130, 3, 40}, {1, 200, 1}, {65, 1, 65}} {
-		a := seqT("f32", []int{d[0], d[1]}, func(i int) float64 { return float64((i*7+1)%7 - 3) })
-		b := seqT("f32", []int{d[1], d[2]}, func(i int) float64 { return float64((i*5+2)%5 - 2) })
+		a := seqT("f32", []int{d[0], d[1]}, func(i int) float64 { return float64((i*3+i/7+1)%7 - 3) })
+		b := seqT("f32", []int{d[1], d[2]}, func(i int) float64 { return float64((i*2+i/5+2)%5 - 2) })
 		e.emit(opCase("large", "MatMul", nil, []*TJ{a, b}, nil))
-		bt := seqT("f32", []int{d[2], d[1]}, func(i int) float64 { return float64((i*5+2)%5 - 2) })
+		bt := seqT("f32", []int{d[2], d[1]}, func(i int) float64 { return float64((i*2+i/5+2)%5 - 2) })
 		e.emit(opCase("large", "Gemm", []Attr{{Name: "transB", Type: "i", I: 1}}, []*TJ{a, bt, seqT("f32", []int{d[2]}, func(i int) float64 { return float64(i % 3) })}, nil))
 		e.emit(opCase("large", "MatMul", nil, []*TJ{seqT("f32", []int{2, d[0], d[1]}, func(i int) float64 { return float64((i*3+1)%5 - 2) }), b}, nil))
+	}
+	// float carrier: fractional alpha / beta (equal and different), fractional data, and values whose product
+	// or sum comes close to the float32 range while the ONNX result stays inside it
+	for gi, g := range []struct {
+		al, be float64
+		a, b, c []float64
+	}{
+		{0.5, 0.5, []float64{3e38, 0, 1, 2}, []float64{1, 0, 0, 1}, []float64{3e38, 4}},
+		{0.5, 0.5, []float64{1.5, -2.25, 0.125, 3}, []float64{0.5, 1, -1, 0.25}, []float64{1, -1}},
+		{0.25, 2, []float64{1e19, 2, -3, 1e-3}, []float64{1e19, 1, 0.5, -2}, []float64{-1e38, 7}},
+		{2, 2, []float64{-2e38, 1, 1, 1}, []float64{1, 0, 0, 1}, []float64{1.9e38, 1}},
+		{1, 1, []float64{0.1, 0.2, 0.3, 0.4}, []float64{0.7, -0.6, 0.5, 0.9}, []float64{0.01, -0.02}},
+		{-1.5, 0.75, []float64{2, 3, 5, 7}, []float64{0.5, 0.25, 0.125, 1}, []float64{100, -100}},
+		{1e-3, 1e3, []float64{1e3, 1e4, 1e5, 1e6}, []float64{1, 2, 3, 4}, []float64{1e-3, 1e-4}},
+	} {
+		for _, tB := range []int64{0, 1} {
+			attrs := []Attr{{Name: "alpha", Type: "f", F: g.al}, {Name: "beta", Type: "f", F: g.be}, {Name: "transB", Type: "i", I: tB}}
+			ins := []*TJ{fT("f32", []int{2, 2}, g.a), fT("f32", []int{2, 2}, g.b), fT("f32", []int{2}, g.c)}
+			e.emit(opCase("gemm-float", "Gemm", attrs, ins, nil))
+			if gi%2 == 0 {
+				e.emit(opCase("gemm-float", "Gemm", attrs, ins[:2], nil))
+			}
+		}
 	}
 	// the same tensor object at two input positions (a node listing one name twice: Gram matrices, X·X)
 	for _, s := range [][]int{{2, 2}, {3, 3}, {2, 3}, {1, 2}} {
